@@ -69,8 +69,9 @@ theorem connLife_spec (c : Cfg) (s : St) (o : Outcome) :
     obtain ⟨a, b, e⟩ := d
     cases hs : s.disconnected <;> cases b <;> cases e <;> simp [connLife, St.emit, isAtt, isUD, oTime, hs]
   | accepted t life d =>
-    obtain ⟨a, b, e⟩ := d
-    cases b <;> cases e <;> simp [connLife, St.emit, isAtt, isUD, oTime]
+    obtain ⟨a, b, e, w, sd⟩ := d
+    by_cases hq : s.proto = 5 ∧ sd.isSome = true ∧ life = 0 <;>
+      cases b <;> cases e <;> simp [connLife, St.emit, isAtt, isUD, oTime, hq]
   | downgrade t => exact ⟨[], by simp [connLife]⟩
 
 /-! ### state projections -/
@@ -355,8 +356,9 @@ theorem LastOK.nil (c : Cfg) (now : Nat) : LastOK c [] now := by
 
 theorem connLife_delay_accepted (c : Cfg) (s : St) (t life : Nat) (d : DiscAt) :
     (connLife c s (.accepted t life d)).1.delay = none := by
-  obtain ⟨a, b, e⟩ := d
-  cases b <;> cases e <;> simp [connLife, St.emit]
+  obtain ⟨a, b, e, w, sd⟩ := d
+  by_cases hq : s.proto = 5 ∧ sd.isSome = true ∧ life = 0 <;>
+    cases b <;> cases e <;> simp [connLife, St.emit, hq]
 
 theorem connLife_delay_other (c : Cfg) (s : St) (o : Outcome) (h : ∀ t l d, o ≠ .accepted t l d) :
     (connLife c s o).1.delay = s.delay := by
@@ -589,8 +591,9 @@ theorem connLife_no_raised (c : Cfg) (s : St) (o : Outcome) (h : Obs.raised ∉ 
     obtain ⟨a, b, e⟩ := d
     cases b <;> cases e <;> simp [connLife, St.emit, h]
   | accepted t life d =>
-    obtain ⟨a, b, e⟩ := d
-    cases b <;> cases e <;> simp [connLife, St.emit, h]
+    obtain ⟨a, b, e, w, sd⟩ := d
+    by_cases hq : s.proto = 5 ∧ sd.isSome = true ∧ life = 0 <;>
+      cases b <;> cases e <;> simp [connLife, St.emit, h, hq]
 
 theorem run_no_raised (c : Cfg) (fuel : Nat) : ∀ (script : List Outcome) (first : Bool) (s : St),
     (first = false ∨ c.retryFirst = true) → Obs.raised ∉ s.log → Obs.raised ∉ (run c fuel script first s).log := by
